@@ -22,7 +22,10 @@ META = dict(
          'instance names the same (cycle, task, output) of the absolute '
          'parent, and that it is satisfied exactly when that output was '
          'completed - for instances pooled before, spawned after, or spawned '
-         'after a restart - and that the database row is queued once.',
+         'after a restart - and that the database row is queued once. '
+         'Obligation abs_two (fixture abs3): a dependant with two absolute '
+         'prerequisites written on lines of their own gets both satisfied, '
+         'whichever parent completes first.',
     note='integer cycling; dependants w@{2,4,6,8}, v@{4,6}; parent start@2 '
          'with outputs succeeded and x; restart = new TaskPool fed through '
          'load_abs_outputs_for_restart with the rows the first pool handed '
@@ -151,11 +154,72 @@ def abs_trigger(b2: bool, b4: bool, b6: bool, b8: bool, suc: bool, xout: bool,
         return _run(bits[:4], bits[4], bits[5], bits[6], bits[7], fi)
 
 
+CFG3 = fx.cfg('abs3')
+
+
+def _two(before, first, restart):
+    """A dependant with two separate absolute prerequisites (start[2] => w;
+    start2[2] => w on lines of their own): both must be satisfied on every
+    instance, whichever completes first, pooled before or spawned after."""
+    pool = fx.pool(CFG3)
+    db = pool.workflow_db_mgr
+    parents = [fx.itask(CFG3, n, 2) for n in ('start', 'start2')]
+    for t in parents:
+        t.state.is_runahead = False
+        pool.add_to_pool(t)
+    pts = [1, 3, 5, 7]
+    for p, b in zip(pts, before):
+        if b:
+            pool.add_to_pool(fx.itask(CFG3, 'w', p))
+    for t in (parents if first == 0 else reversed(parents)):
+        t.state.status = 'succeeded'
+        for m in ('submitted', 'started', 'succeeded'):
+            t.state.outputs.set_message_complete(m)
+        pool.spawn_on_output(t, 'succeeded')
+    rows = [c[1] for c in db.calls if c[0] == 'put_insert_abs_output']
+    if set(rows) != {('2', 'start', 'succeeded'),
+                     ('2', 'start2', 'succeeded')}:
+        return False
+    if restart:
+        old = pool
+        pool = fx.pool(CFG3)
+        for i, row in enumerate(sorted(rows)):
+            pool.load_abs_outputs_for_restart(i, row)
+        for t in old.get_tasks():
+            pool.add_to_pool(t)
+    for p in pts:
+        if pool._get_task_by_id(f'{p}/w') is None:
+            t = pool.spawn_task('w', IntegerPoint(str(p)), {1})
+            if t is None:
+                return False
+            pool.add_to_pool(t)
+    for p in pts:
+        w = pool._get_task_by_id(f'{p}/w')
+        for name in ('start', 'start2'):
+            k, v = _atom(w, name, 'succeeded')
+            if k is None or k.point != '2' or not v:
+                return False
+    return True
+
+
+def abs_two(b1: bool, b3: bool, b5: bool, b7: bool, first: int,
+            restart: bool) -> bool:
+    """
+    pre: 0 <= first <= 1
+    post: _
+    """
+    bits = [fork_bool(b) for b in (b1, b3, b5, b7, restart)]
+    first = fork_int(first, 0, 1)
+    with concrete():
+        return _two(bits[:4], first, bits[4])
+
+
 def OBLIGATIONS(tier):
     big = tier == 'thorough'
     t = 1200 if big else 160
     return [Ob(f'abs_trigger[{n}]', 'abs_trigger', timeout=t,
-               slice={'fi': i}) for i, n in enumerate(('abs', 'abs2'))]
+               slice={'fi': i}) for i, n in enumerate(('abs', 'abs2'))] + [
+        Ob('abs_two', 'abs_two', timeout=t)]
 
 
 def VALIDATE():
@@ -164,4 +228,6 @@ def VALIDATE():
     assert _run([False, False, False, False], True, True, True, True)
     assert _run([True, True, True, True], False, False, False, False)
     assert _run([True, False, False, True], True, True, True, False, 1)
-    return n + 4
+    assert _two([True, False, True, False], 0, False)
+    assert _two([False, False, False, False], 1, True)
+    return n + 6
